@@ -5,7 +5,7 @@
 use libfuzzer_sys::fuzz_target;
 use bladeink::story::Story;
 
-const INK: &str = "LIST L = (a), b, c\nVAR x = 1\nVAR l = ()\n-> start\n=== start ===\n~ temp t = 3\nHello {x} {t} {L}.\n<- side\n* (one) [First] -> tunnel ->\n    After tunnel.\n    -> start\n+ [Second] {&a|b} {f(x)}\n    ~ x = x + 1\n    ~ l += b\n    -> start\n* -> END\n=== side ===\n* [Side choice]\n    Side. -> DONE\n=== tunnel ===\nIn tunnel.\n->->\n=== function f(v) ===\n~ return v * 2\n";
+const INK: &str = include_str!("../fixed_story.ink");
 
 thread_local! {
     static JSON: String = bladeink_compiler::Compiler::new().compile(INK).expect("fixed story compiles");
